@@ -313,3 +313,28 @@ func (c *Ctx) PhiLeafEdges(v ssa.Value, pat string) []Edge {
 	walk(v, nil)
 	return out
 }
+
+// RetIsCmp: every return of fn yields exactly the boolean `X op Y` (operand order normalised).
+func (c *Ctx) RetIsCmp(fn *ssa.Function, detail, x, op, y string) {
+	if fn == nil {
+		return
+	}
+	want := opByName[op]
+	rets := Returns(fn)
+	if !c.Floor(fn, detail+" returns", len(rets), 1) {
+		return
+	}
+	for _, r := range rets {
+		v := RetVal(r, 0)
+		ok := false
+		if b, isB := v.(*ssa.BinOp); isB {
+			switch {
+			case P(x).Match(c.D(b.X)) && P(y).Match(c.D(b.Y)):
+				ok = b.Op == want
+			case P(x).Match(c.D(b.Y)) && P(y).Match(c.D(b.X)):
+				ok = flipOp[b.Op] == want
+			}
+		}
+		c.Report(fn, detail, c.InstrPos(r), ok, "returns "+c.D(v)+"; wanted "+x+" "+op+" "+y)
+	}
+}
